@@ -114,7 +114,7 @@ pub fn gen_cprog(rng: &mut Rng) -> CProg {
             let next_ctx = if last { None } else if rng.chance(1, 4) { Some(ctx) } else { Some((ctx + 1 + rng.below(nctx - 1)) % nctx) };
             let window = if last && rng.chance(1, 2) { Some(2 + rng.below(3)) } else { None };
             // a derived last stream may read its producer through an aliased pattern source
-            let seq = last && j > 0 && window.is_none() && rng.chance(1, 3);
+            let seq = last && j > 0 && window.is_none() && rng.chance(1, 2);
             streams.push(CStream {
                 name: name.clone(),
                 src: prev_name.clone(),
